@@ -1253,6 +1253,9 @@ def search(ctx, deep=False):
     import threadcfg
     ev7, v7 = threadcfg.api_thread_sweep(ctx, ("incompr",), ctx.scale(10, 80))
     ctx.log(f"thread configuration: {ev7} vector fields with gstools.config.NUM_THREADS in {threadcfg.THREADS} vs None, {len(v7)} differences")
+    ev8, v8 = threadcfg.api_copies_and_sizes(ctx, ("incompr",), ctx.scale(3, 12))
+    ctx.log(f"large calls and duplicated objects: {ev8} comparisons, {len(v8)} differences")
+    ev7, v7 = ev7 + ev8, v7 + v8
     return {"evaluations": ev1 + ev2 + ev3 + ev4 + ev5 + ev6 + ev7,
             "violations": (v1[:3] + v4[:3] + v5[:4] + v2[:3] + v3[:2])[:8] + v6 + v7[:2],
             "summary": f"central-difference divergence (h=1e-5 len_scale) of real SRF(generator='VectorField') at {ev1} random points over "
@@ -1267,7 +1270,7 @@ def search(ctx, deep=False):
                        f"(3/8,1/8 | 8/15,1/15,1/15), worst z-score {worst2:.2f} (threshold 6.5); "
                        f"{ev3} finite-difference points on the Lean translation of the current summator.pyx; "
                        f"{ev6} points of isotropic models with rotation angles (worst |div|/tolerance {worst6:.3g}); "
-                       f"{ev7} vector fields re-evaluated under gstools.config.NUM_THREADS = 1, 2, 3, 5 against NUM_THREADS = None"}
+                       f"{ev7} vector fields re-evaluated under gstools.config.NUM_THREADS = 1, 2, 3, 5 against NUM_THREADS = None, one call at > 2^16 points against calls at a subset, deepcopy / copy / pickle duplicates against the original"}
 
 
 def replay(ctx, payload):
